@@ -6,7 +6,12 @@ Inductive case :=
    error class 0 = accepted, 1 = "log append denied", 2 = any other error *)
 | CLocal (univ : list entry) (cfg : acfg) (lid : N) (ident key : N) (before : olog) (errclass : N) (after : olog)
 (* a hostile entry delivered from a peer *)
-| CRemote (d : delivery).
+| CRemote (d : delivery)
+(* the hostile heads are found in the heads cache by Load after a restart.  Load joins the
+   whole log it fetched for a cached head at once (all or nothing), which [model_step]
+   (entry-wise merge of the replicator route) does not describe: only the specification is
+   evaluated; [d_before] is what a restart yields without the hostile heads *)
+| CCached (d : delivery).
 
 Definition check (c : case) : bool * bool :=
   match c with
@@ -32,6 +37,12 @@ Definition check (c : case) : bool * bool :=
        (* not signed by its key, or its real author is no identity of the write list,
           or written for another database: in no replica's log or visible state *)
        (if genuine (d_cfg d) (d_lid d) e then true else negb (present d)) && frame d
+     | None => true
+     end)
+  | CCached d =>
+    (true,
+     match target_entry d with
+     | Some e => (if genuine (d_cfg d) (d_lid d) e then true else negb (present d)) && frame d
      | None => true
      end)
   end.
